@@ -84,7 +84,7 @@ struct World {
 		case SET_DS: return vm && A->full() && A->with_dataset_ops && pending < 0 && ds && ds_key >= 0;
 		case SET_V2: return vm && A->with_version && pending < 0 && !v2;
 		case CLEAR_V2: return vm && A->with_version && pending < 0 && v2;
-		case HASH: case FIRST: return vm_valid() && pending < 0 && (o.code == HASH || A->with_batch);
+		case HASH: case FIRST: return vm_valid() && (pending < 0 || A->with_batch) && (o.code == HASH || A->with_batch);   // with an open pipeline: the pipeline is abandoned (HASH) or restarted (FIRST) - the API does not forbid it and miners do it on every new job
 		case NEXT: return A->with_batch && vm_valid() && pending >= 0;
 		case LAST: return A->with_batch && vm_valid() && pending >= 0;
 		}
@@ -137,7 +137,7 @@ struct World {
 		case SET_DS: { HIST_TRACK; randomx_vm_set_dataset(vm, ds); bound_ds = true; break; }
 		case SET_V2: { HIST_TRACK; vm->setFlagV2(); v2 = true; break; }
 		case CLEAR_V2: { HIST_TRACK; vm->clearFlagV2(); v2 = false; break; }
-		case HASH: { uint8_t out[32]; memset(out, 0xEE, 32); { HIST_TRACK; randomx_calculate_hash(vm, A->inputs[o.a].data(), A->inputs[o.a].size(), out); } check_digest(out, current_key(), o.a, "randomx_calculate_hash"); break; }
+		case HASH: { uint8_t out[32]; memset(out, 0xEE, 32); { HIST_TRACK; randomx_calculate_hash(vm, A->inputs[o.a].data(), A->inputs[o.a].size(), out); } pending = -1; check_digest(out, current_key(), o.a, "randomx_calculate_hash"); break; }
 		case FIRST: { HIST_TRACK; randomx_calculate_hash_first(vm, A->inputs[o.a].data(), A->inputs[o.a].size()); pending = o.a; break; }
 		case NEXT: { uint8_t out[32]; memset(out, 0xEE, 32); { HIST_TRACK; randomx_calculate_hash_next(vm, A->inputs[o.a].data(), A->inputs[o.a].size(), out); } int was = pending; pending = o.a; check_digest(out, current_key(), was, "randomx_calculate_hash_next"); break; }
 		case LAST: { uint8_t out[32]; memset(out, 0xEE, 32); { HIST_TRACK; randomx_calculate_hash_last(vm, out); } int was = pending; pending = -1; check_digest(out, current_key(), was, "randomx_calculate_hash_last"); break; }
